@@ -317,6 +317,7 @@ structure CeSt where
 def ceStep (st : CeSt) (line : String) (t : Tally) : Except String (CeSt × Tally) :=
   let ws := splitWs line
   match ws with
+  | "cfg" :: rest => .ok (st, (t.bump ("kind_" ++ (kvOf rest "kind").getD "?")).bump ("sweeper_" ++ (kvOf rest "sweeper").getD "?"))
   | ["written", v] => .ok ({ st with written := v.toNat! :: st.written }, t.bump "written")
   | ["atomic", _k, v, c] => .ok ({ st with atomicE := (v.toNat!, c) :: st.atomicE }, t.bump "atomic_events")
   | ["deletion", _k, v, c] => .ok ({ st with delE := (v.toNat!, c) :: st.delE }, t.bump "deletion_events")
